@@ -16,10 +16,21 @@ import (
 )
 
 type Agg struct {
-	Fn  string  `json:"fn"`
-	Arg string  `json:"arg"` // "v", "d.v", "v + w", "v * 2", "v - 1", "v * 0.5", "v * 1.5", "d.v * 2", "*"
-	P   float64 `json:"p,omitempty"`
-	Nth int     `json:"nth,omitempty"`
+	Fn    string  `json:"fn"`
+	Arg   string  `json:"arg"` // "v", "d.v", "v + w", "v * 2", "v - 1", "v * 0.5", "v * 1.5", "d.v * 2", "*"
+	P     float64 `json:"p,omitempty"`
+	Nth   int     `json:"nth,omitempty"`
+	Spell int     `json:"spell,omitempty"` // how the function name is written: 0 lower case, 1 UPPER CASE, 2 Initial capital
+}
+
+func (a Agg) name() string {
+	switch a.Spell {
+	case 1:
+		return strings.ToUpper(a.Fn)
+	case 2:
+		return strings.ToUpper(a.Fn[:1]) + a.Fn[1:]
+	}
+	return a.Fn
 }
 
 type Case struct {
@@ -64,6 +75,9 @@ func genCase(t *rapid.T) Case {
 		}
 		if a.Fn == "nth_value" {
 			a.Nth = rapid.IntRange(1, 4).Draw(t, "nth")
+		}
+		if x := rapid.IntRange(0, 5).Draw(t, "spell"); x >= 4 {
+			a.Spell = x - 3 // function names are case-insensitive
 		}
 		if excluded(a.Fn, a.Arg) {
 			a = Agg{Fn: "sum", Arg: "v"}
@@ -136,11 +150,11 @@ func genCase(t *rapid.T) Case {
 func (a Agg) sql(alias string) string {
 	switch a.Fn {
 	case "percentile":
-		return fmt.Sprintf("percentile(%s, %s) AS %s", a.Arg, strconv.FormatFloat(a.P, 'f', -1, 64), alias)
+		return fmt.Sprintf("%s(%s, %s) AS %s", a.name(), a.Arg, strconv.FormatFloat(a.P, 'f', -1, 64), alias)
 	case "nth_value":
-		return fmt.Sprintf("nth_value(%s, %d) AS %s", a.Arg, a.Nth, alias)
+		return fmt.Sprintf("%s(%s, %d) AS %s", a.name(), a.Arg, a.Nth, alias)
 	}
-	return fmt.Sprintf("%s(%s) AS %s", a.Fn, a.Arg, alias)
+	return fmt.Sprintf("%s(%s) AS %s", a.name(), a.Arg, alias)
 }
 
 func sqlOf(c Case) string {
@@ -681,7 +695,7 @@ func features(c Case) []string {
 
 var spec = pbt.Spec[Case]{
 	ID:          "C03",
-	Rule:        "generated: CountingWindow(N), N 1..8, optional group column, 1-4 consecutive batches per key through one instance; values int/float64 (negative, zero, repeats, large), NULL, missing; argument shapes v, d.v, v + w, v * 2, v - 1, v * 0.5, v * 1.5, d.v * 2 (drawn per aggregate, so one query mixes them); SELECT list = random subset of count(*), count, sum, avg, min, max, stddev, stddevs, var, vars, median, percentile(p), first_value, last_value, nth_value, collect, deduplicate, merge_agg. oracle: reference definitions on exactly the batch's rows (NULL/missing skipped, empty input -> NULL for sum/avg/min/max, population vs sample formulas, percentile accepted between the neighbouring order statistics), plus a twin instance fed each batch permuted (order-insensitive aggregates must agree). non-trivial = a batch with a NULL/missing value and >= 2 distinct numbers, or >= 2 batches; distinct by case hash",
+	Rule:        "generated: CountingWindow(N), N 1..8, optional group column, 1-4 consecutive batches per key through one instance; values int/float64 (negative, zero, repeats, large), NULL, missing; argument shapes v, d.v, v + w, v * 2, v - 1, v * 0.5, v * 1.5, d.v * 2 (drawn per aggregate, so one query mixes them); function names in lower, upper or initial-capital spelling; SELECT list = random subset of count(*), count, sum, avg, min, max, stddev, stddevs, var, vars, median, percentile(p), first_value, last_value, nth_value, collect, deduplicate, merge_agg. oracle: reference definitions on exactly the batch's rows (NULL/missing skipped, empty input -> NULL for sum/avg/min/max, population vs sample formulas, percentile accepted between the neighbouring order statistics), plus a twin instance fed each batch permuted (order-insensitive aggregates must agree). non-trivial = a batch with a NULL/missing value and >= 2 distinct numbers, or >= 2 batches; distinct by case hash",
 	Assumptions: []string{"stddev/var/median/percentile over no usable input: NULL, 0 or NaN accepted (not fixed by the guide)", "first_value/last_value: a missing field may be reported as NULL or skipped; an explicit NULL is reported", "nth_value: n-th row or n-th usable value accepted"},
 	Gen:         genCase,
 	Run:         runCase,
